@@ -271,7 +271,7 @@ PROPS["C08"]["rule"] += " override-meta (metamorphic, real code only): histories
 PROPS["C10"]["components"].append(Sched("gauge", 2000, 100000, label="sched-gauge-panic", only="C10:", pb1=((40, 1500), (400, 40000))))
 PROPS["C10"]["rule"] += " gauge (schedules): 2-5 concurrent callers among succeeding / failing / panicking run functions and fallbacks under every limit: a panic reaches its own caller with its value, nobody else sees one, and both gauges read zero once all returned."
 PROPS["C10"]["trusted_base"] = PROPS["C10"]["trusted_base"] + TB_SCHED
-PROPS["C01"]["components"].append(Sched("shed", 3000, 150000, exhaustive_limit=3000, conformance="tr-call", only="C01:", pb1=((40, 1500), (400, 40000))))
+PROPS["C01"]["components"].append(Sched("shed", 3000, 150000, exhaustive_limit=3000, conformance="tr-call,tr-run", only="C01:", pb1=((40, 1500), (400, 40000))))
 PROPS["C01"]["rule"] += " shed (schedules): 2-4 threads among OpenCircuit / failing call (the opener says open) / succeeding call race on a circuit with the real hystrix closer whose sleep window never elapses and which cannot close; monitors: a call that starts after an opening completed is never run and gets the circuit-open error; one short-circuit event per shed call; every atomic step conforms to the Lean small-step model Conc/Call (K2)."
 PROPS["C01"]["trusted_base"] = TB_CIRCUIT + TB_SCHED
 PROPS["C03"]["components"].append(Sched("shed", 3000, 150000, label="sched-shed-window", only="C03:", pb1=((40, 1500), (400, 40000))))
